@@ -377,7 +377,7 @@ func (r *Reader) MarkdownWithOptions(opts ExtractOptions) (string, error) {
 				}
 				result.WriteString(strings.Repeat("#", level))
 				result.WriteString(" ")
-				result.WriteString(para.Text)
+				result.WriteString(singleLine(para.Text))
 				result.WriteString("\n\n")
 				inList = false
 			} else if para.IsListItem && para.NumID != "" && para.NumID != "0" {
@@ -525,7 +525,7 @@ func (r *Reader) MarkdownWithRAGOptions(extractOpts ExtractOptions, mdOpts rag.M
 				}
 				result.WriteString(strings.Repeat("#", level))
 				result.WriteString(" ")
-				result.WriteString(para.Text)
+				result.WriteString(singleLine(para.Text))
 				result.WriteString("\n\n")
 				inList = false
 			} else if para.IsListItem && para.NumID != "" && para.NumID != "0" {
@@ -553,6 +553,13 @@ func (r *Reader) MarkdownWithRAGOptions(extractOpts ExtractOptions, mdOpts rag.M
 	}
 
 	return strings.TrimSpace(result.String()), nil
+}
+
+// singleLine replaces the line breaks inside a heading by blanks: an ATX
+// heading ends at the end of its line, so the text after a manual line break
+// would become an ordinary paragraph.
+func singleLine(s string) string {
+	return strings.ReplaceAll(s, "\n", " ")
 }
 
 // writeMarkdownListItem writes a list item in markdown format.
